@@ -160,7 +160,7 @@ def make_groups(chk, pid, rng, n_groups, thorough):
             s = 2.0 ** k
             basem = run_one(inst, cf, geom.Conc(k=k))
             runs.append(obs_of(basem, 'planar'))
-            for a in rng.sample(ANCHORS, 2 if not thorough else 4):
+            for a in rng.sample(ANCHORS + [(-16.8, 179.9999), (52.0, -179.99995), (10.0, 180.0)], 2 if not thorough else 4):
                 ev = run_one(inst, dict(cf), geom.Conc(latlon={'s': s, 'anchor': list(a)}))
                 runs.append(obs_of(ev, f'latlon@{a}', tol=40, rel=300, exact=False))
         elif pid == 'C12':
